@@ -149,6 +149,7 @@ class World:
             self.sides[role] = None
         elif kind == "restart" and s is None:
             ns = Side(role, self.tm, self.now, self.rng)
+            ns.restarted = True
             self.sides[role] = ns
             ns.started = True
             self.local(role, "in start")
@@ -178,7 +179,7 @@ class World:
 def make_plan(rng, tm, horizon, infinite):
     """disturbances: (time, kind, role); crash is always followed by a restart when TTLs are infinite"""
     plan = [(0, "start", "o"), (rng.choice([0, 0, 7, 150]), "start", "w")]
-    t = rng.choice([60, 300, 900])
+    t = rng.choice([0, 0, 25, 60, 300, 900])   # 0: disturbances at the deadlines of the very first start-up too
     n = rng.choice([1, 1, 2, 3])
     anchors = [0, tm.initMax, tm.initMax + tm.base, tm.cyclic, 2 * tm.cyclic, tm.coll, tm.initMax + tm.coll, (tm.refresh or tm.cyclic),
                tm.annTtl * 1000 if tm.annTtl != 0xFFFFFF else tm.cyclic]
@@ -249,18 +250,26 @@ def run(ctx: core.Ctx) -> core.Report:
             wrunning = wt is not None and wt.started
             rep.evaluations += 1
             rep.dist[f"c04:{'infinite' if infinite else 'finite'}-ttl"] += 1
+            # the statement's domain for infinite TTLs: "restarts after which the restarted peer sends at least one SD
+            # message" - a peer that was restarted and stopped again inside its initial wait phase has told nobody that it
+            # rebooted, and with infinite TTLs nothing else can (found on the unchanged tree by the thorough tier: crash,
+            # restart, stop 9 ms later with an initial delay of 11 ms; an alarm there was the oracle's mistake)
+            silent = [s for s in list(w.sides.values()) + w.graves if s is not None and getattr(s, "restarted", False) and s.nsent == 0]
+            judge = not (infinite and silent)
+            if not judge:
+                rep.dist["c04:outside-domain(silent restarted peer, infinite TTL)"] += 1
             for _t, kind, role in plan[2:]:
                 rep.dist[f"c04:disturbance:{kind}"] += 1
             if fault:
                 rep.dist["c04:fault-window"] += 1
-            if wt is not None:
+            if wt is not None and judge:
                 offered = wt.last_notification("offered 0 ") is not None and [
                     l for l in wt.impl.outs if l.split(" ", 1)[1].startswith(("offered 0 ", "stopped 0 "))][-1].split(" ")[1] == "offered"
                 if offered != offering:
                     rep.violation(f"C04:watcher-{'stale-offered' if offered else 'not-offered'}",
                                   f"{D} ms after the last disturbance the watcher's listener says offered={offered} but the offerer is "
                                   f"{'offering' if offering else 'not offering'}", case)
-            if o is not None:
+            if o is not None and judge:
                 subs = [l for l in o.impl.outs if l.split(" ", 1)[1].startswith(("subscribed 0 ", "unsubscribed 0 "))]
                 subscribed = bool(subs) and subs[-1].split(" ")[1] == "subscribed"
                 if subscribed != (offering and wrunning):
